@@ -165,7 +165,8 @@ Section Safe.
         + destruct (hk m =? 1)%nat; [cbn; fin|]. apply (IHh PCheckHalt s I). split; assumption.
         + intros s1 (A & B & C0 & D) L1. cbv zeta.
           destruct (enqueue_frame2 c (next_hop c (mdest m)) m (scnt s1 + 1) s1) as (E1 & E2 & E3 & E4 & E5 & _).
-          rewrite E1, A. cbn. split; [unfold postH; repeat split; congruence|]. unfold LogOK in *. rewrite E5. exact L1.
+          eapply resP_weaken; [apply (IHh PFlushToCap _ I)|]; [split; [congruence | unfold LogOK in *; rewrite E5; exact L1]|].
+          intros s2 (A2 & B2 & C2 & D2) _. unfold postH. repeat split; congruence.
       - (* PQueueBytes *)
         cbn [run].
         destruct (enqueue_frame2 c d m (scnt s + 1) s) as (E1 & E2 & E3 & E4 & E5 & _).
@@ -177,7 +178,9 @@ Section Safe.
         eapply resP_bind with (P1 := postH s).
         + eapply resP_weaken; [apply (IHh (PQueueMany _ _) s1 I)|]; [split; assumption|].
           intros s2 (A2 & B2 & C2 & D2) _. unfold postH. repeat split; congruence.
-        + intros s2 (A2 & B2 & C2 & D2) L2. rewrite A2. cbn. fin.
+        + intros s2 (A2 & B2 & C2 & D2) L2.
+          eapply resP_weaken; [apply (IHh PFlushToCap s2 I)|]; [split; assumption|].
+          intros s3 (A3 & B3 & C3 & D3) _. unfold postH. repeat split; congruence.
       - (* PMcast *)
         destruct ds as [|d ds]; cbn [run]; [fin|].
         eapply resP_bind with (P1 := postH s).
@@ -321,7 +324,6 @@ Section Safe.
         + destruct (hk m =? 1)%nat; [cbn; unfold postM; fin|]. apply (IHm PCheckHalt s I). prem.
         + intros s1 P1 L1. cbv zeta.
           destruct (enqueue_frame2 c (next_hop c (mdest m)) m (scnt s1 + 1) s1) as (E1 & E2 & E3 & E4 & E5 & _). destruct P1 as (A & B & C0 & D).
-          rewrite E1, A.
           eapply resP_weaken; [apply (IHm PFlushToCap _ I)|].
           * unfold preM, maskinv. rewrite E1, E2, E3, E4, C0, D. destruct Hmi as (M1 & M2). repeat split; try assumption.
             unfold LogOK in *. rewrite E5. exact L1.
@@ -338,7 +340,7 @@ Section Safe.
         eapply resP_bind with (P1 := postM s).
         + eapply resP_weaken; [apply (IHm (PQueueMany _ _) s1 I (PM s1 P1 L1))|].
           destruct P1 as (A & B & C0 & D). intros s2 (A2 & B2 & C2 & D2) _. unfold postM. repeat split; congruence.
-        + intros s2 P2 L2. destruct P2 as (A2 & B2 & C2 & D2). rewrite A2.
+        + intros s2 P2 L2. destruct P2 as (A2 & B2 & C2 & D2).
           eapply resP_weaken; [apply (IHm PFlushToCap s2 I (PM s2 (conj A2 (conj B2 (conj C2 D2))) L2))|].
           intros s3 (A3 & B3 & C3 & D3) _. unfold postM. repeat split; congruence.
       - (* PMcast *)
